@@ -2,6 +2,7 @@ import XmppModel.Model.Header
 import XmppModel.Model.StreamNeg
 import XmppModel.Model.Bind
 import XmppModel.Lemmas.Header
+import XmppModel.Generated.C12
 /-!
 # C12 — negotiation carries addresses and identifiers faithfully and checks them
 
@@ -9,6 +10,35 @@ Property theorems only (helpers in `Lemmas/Header.lean`).
 -/
 namespace XmppModel.Props.C12
 open XmppModel XmppModel.Xml
+
+/-! ## tie to the source: regenerated facts -/
+section facts
+open XmppModel.Header XmppModel.StreamNeg
+
+/-- every attribute `internal/stream.Send` prints with a bare `%s` (read from the string
+literals of the function on every run) is one whose value the library itself chooses:
+the content namespace and the version.  `id`, `to`, `from`, `xml:lang` are not among them. -/
+theorem C12_gen_send_raw :
+    ∃ l, Generated.C12.sendRawAttrs = some l ∧ ∀ n ∈ l, n = "xmlns" ∨ n = "version" :=
+  ⟨_, rfl, by decide⟩
+
+set_option maxRecDepth 100000 in
+/-- the model's `escChar` is `xml.EscapeText` on every code point below U+0300 and on the
+boundaries of the XML character ranges (the real function evaluated on that whole domain at
+extraction time) -/
+theorem C12_gen_escape_table :
+    ∃ t, Generated.C12.escapeTable = some t ∧
+      ∀ e ∈ t, (escChar (Char.ofNat e.1)).map Char.toNat = e.2 :=
+  ⟨_, rfl, by decide⟩
+
+set_option maxRecDepth 100000 in
+/-- the model's `parseVersion` is `stream.ParseVersion` on every string of length ≤ 3 over
+`0 1 2 9 . + - a ␣` and a list of longer ones (the real function evaluated at extraction time) -/
+theorem C12_gen_version_table :
+    ∃ t, Generated.C12.versionTable = some t ∧ ∀ e ∈ t, parseVersion e.1 = e.2 :=
+  ⟨_, rfl, by decide⟩
+
+end facts
 
 /-! ## the header we send -/
 section header
